@@ -12,7 +12,7 @@ C15 — model of the experiment records of mahf:
 * a tiny configuration-tree serialisation model (named nodes, parameter lists, children).
 
 Code-shaped: a trigger can fire, not fire, return `Err` or panic; a missing source state is an explicit
-`null` (`Option::None` serialised); a missing loop counter makes `push_iteration` panic.
+`null` (`Option::None` serialised); without a loop counter `push_iteration` adds no iteration entry.
 -/
 import MahfModel.Model.Sexp
 namespace MahfModel.Log
@@ -64,12 +64,13 @@ def execRules : List (Rule N V) → Step N V → Except Fail (Step N V)
     | .skip => execRules rs s
     | .fire => execRules rs (push s (r.name, r.value))
 
-/-- `Step::push_iteration`; `iters = none` means no `Iterations` state is reachable: `get_value` panics. -/
-def pushIteration (iterName : N) (iters : Option V) (s : Step N V) : Option (Step N V) :=
-  if contains s iterName then some s
+/-- `Step::push_iteration`; `iters = none` means no `Iterations` state is reachable
+(`try_get_value` fails): the step stays without an iteration entry. -/
+def pushIteration (iterName : N) (iters : Option V) (s : Step N V) : Step N V :=
+  if contains s iterName then s
   else match iters with
-    | some v => some ((iterName, some v) :: s)
-    | none => none
+    | some v => (iterName, some v) :: s
+    | none => s
 
 /-- `Logger::execute` when a `LogConfig` is present. -/
 def loggerExec (iterName : N) (rules : List (Rule N V)) (iters : Option V) (log : Log N V) :
@@ -78,9 +79,7 @@ def loggerExec (iterName : N) (rules : List (Rule N V)) (iters : Option V) (log 
   | .error e => .error e
   | .ok step =>
     if step.isEmpty then .ok log
-    else match pushIteration iterName iters step with
-      | none => .error .panic
-      | some st => .ok (log ++ [st])
+    else .ok (log ++ [pushIteration iterName iters step])
 
 /-- A sequence of logger executions (what a run amounts to, as far as the log is concerned). -/
 def runExecs (iterName : N) : List (List (Rule N V) × Option V) → Log N V → Except Fail (Log N V)
@@ -104,12 +103,15 @@ def dedupAux (seen : List N) : List (Entry N V) → List (Entry N V)
 def dedup (es : List (Entry N V)) : List (Entry N V) := dedupAux [] es
 
 /-- The step a logger execution has to append (`none`: nothing fired, nothing is appended), given
-the loop counter if there is one. Without a counter the step can only be formed if a rule logged the
-iteration entry itself. -/
+the loop counter if there is one: the first fired entry of every name, preceded by the iteration
+entry unless a rule logged that name itself or no counter exists. -/
 def specStepO (iterName : N) (rules : List (Rule N V)) (it : Option V) : Option (Step N V) :=
   let es := dedup (fired rules)
   if es.isEmpty then none
-  else if contains es iterName then some es else it.map (fun v => (iterName, some v) :: es)
+  else if contains es iterName then some es
+  else match it with
+    | some v => some ((iterName, some v) :: es)
+    | none => some es
 
 def specStep (iterName : N) (rules : List (Rule N V)) (it : V) : Option (Step N V) :=
   specStepO iterName rules (some it)
@@ -383,9 +385,7 @@ def doLog (s : St) : Except Fail St :=
     | .ok step =>
       let tr := s.trace ++ [(resolve s.env rs, getIters s.env)]
       if step.isEmpty then .ok { s with rules := some q.2, trace := tr }
-      else match pushIteration iterName (getIters s.env) step with
-        | none => .error .panic
-        | some st => .ok { s with rules := some q.2, log := s.log ++ [st], trace := tr }
+      else .ok { s with rules := some q.2, log := s.log ++ [pushIteration iterName (getIters s.env) step], trace := tr }
 
 mutual
   def exec : Nat → Node → St → Except Fail St
@@ -431,22 +431,6 @@ end
 def runProgram (fuel : Nat) (rules : Option (List RuleSt)) (prog : Nodes) : Except Fail St :=
   execs fuel prog { env := [{ iters := if prog.hasLoop then some 0 else none, x := none }],
                     rules := rules, log := [], trace := [] }
-
-/-- The step the property demands for one logger execution: as `specStep`, but when no loop counter
-exists the fired entries are still expected (without an iteration entry). -/
-def wantStep (e : List (Rule String Nat) × Option Nat) : Option (Step String Nat) :=
-  match e.2 with
-  | some it => specStep iterName e.1 it
-  | none => let es := dedup (fired e.1); if es.isEmpty then none else some es
-
-/-- The property's predicate on the outcome of one logger execution whose triggers do not fail: the
-run goes on, and the log has grown by exactly the step the property demands (by nothing if no
-trigger fired). -/
-def execHolds (rules : List (Rule String Nat)) (it : Option Nat) (log : Log String Nat)
-    (out : Except Fail (Log String Nat)) : Bool :=
-  match out with
-  | .ok log' => log' == log ++ (wantStep (rules, it)).toList
-  | .error _ => false
 
 /-! ### Wire format -/
 open MahfModel Sexp
@@ -609,7 +593,7 @@ def handleProgram (input implOut : Sexp) : Option CaseResult := do
     | .ok s =>
       let model := okOut (s.log.map mapVal)
       -- expected by the property: one step per logger execution that fired (spec function)
-      let want := (s.trace.filterMap wantStep).map mapVal
+      let want := (s.trace.filterMap fun e => specStepO iterName e.1 e.2).map mapVal
       let holds := exportsMatch want implOut
       let cls := if holds then "-" else
         (match implOut with
@@ -623,8 +607,7 @@ def handleProgram (input implOut : Sexp) : Option CaseResult := do
       let holds := Sexp.beq model implOut
       pure { model, holds, cls := if holds then "-" else "wrong-value" }
     | .error .panic =>
-      -- either a trigger panicked (`EveryN` with n = 0: outside C15, the harness does not generate it)
-      -- or `push_iteration` found no loop counter: the property wants a step, the code panics.
+      -- a trigger panicked (`EveryN` with n = 0: outside C15, the harness does not generate it)
       pure { model := Sexp.list [.atom "res", .atom "panic"], holds := false, cls := "panic" }
     | .error .timeout => none
   | _ => none
